@@ -490,6 +490,12 @@ next((rows for r in rows), orders)
 (amount := 0) == 0
 any((seen := r.item) == "star" for r in rows)
 [(last := r.amt) for r in orders]
+o if len([o.item for o in rows if o.amt > 0]) > 0 else "none"
+len([q for q in rows]) > 0 and q
+[x.amt for x in rows] and x
+(len([w.item for w in orders]) > 0) and w.item
+"%s" % (len([z for z in rows]) and z)
+[e for e in []] or e
 '''.strip().splitlines()
 
 VIEW_PAYLOADS = r'''
@@ -752,6 +758,9 @@ def run_file_contexts(rec, ep, s, rnd):
         text = '[P]\nmatch: contains("NETFLIX")\ncategory: C\nfield: out = %s\n\n' % s + base
     elif slot == 'tag':
         text = '[P]\nmatch: contains("NETFLIX")\ncategory: C\ntags: t1, {%s}\n\n' % s + base
+    elif slot == 'variable' and rnd.random() < .35:
+        # a variable that refers to one defined further down the file (and one that refers to itself)
+        text = 'fwd = zz\nself = self\nzz = %s\n[P]\nmatch: contains("NETFLIX") or fwd or self\ncategory: C\nfield: out = fwd\nfield: out2 = self\ntags: {fwd}, {self}, {"%%s" %% fwd}\n\n' % s + base
     elif slot == 'variable':
         text = 'zz = %s\n[P]\nmatch: contains("NETFLIX") or zz\ncategory: C\nfield: out = zz\ntags: {zz}\n\n' % s + base
     else:
